@@ -201,12 +201,16 @@ CHECKS = {
    text='Partial by design: the MODULAR machinery of tm/num.py (Add/Mul/Div/Exp.__mod__, hard-coded residues, find_period, the binary loop, exp_mod_special_cases with all '
         '818 table rows) is transcribed to Gallina and PROVED sound for all expression trees and all moduli (C18_mod_sound: the model answer equals eval(e) mod m whenever every '
         'Exp exponent is >= 2; C18_binexp_mod_spec, C18_find_period_sound, C18_tables_sound, C18_hard_coded_residues, ...; the two repaired defects are refuted on the pre-fix '
-        'definitions), and model = library on every % case run. The simplifier (+ - * // **) and the comparisons have NO model: the library result is serialised and evaluated '
+        'definitions), and model = library on every % case run. The INTEGER-OPERAND arithmetic (x+n, n+x, x-n, n-x, -x, x*n, n*x, exact x//n for any n<>0, x**n, make_exp) is '
+        'transcribed too (Model/PyNumArithModel.v, tied to the library by STRUCTURAL equality of result trees, relation D) and proved: C18_arith_sound / C18_arith_intexp_sound (the transcription '
+        'itself is sound for every operand whose exponents are Python ints; with symbolic exponents one guard on gcd(l, Exp) remains and is shown necessary by C18_symbolic_exponent_refuted = '
+        'known finding F15s), C18_gcd_sound, ten per-operator corollaries; the two defects found while proving (gcd() not a common divisor; Exp // negative int) are repaired by fix: commits and '
+        'refuted on the pre-fix definitions. Num-by-Num operations and the comparisons have NO model: the library result is serialised and evaluated '
         'with the extracted Coq integer semantics (NumExpr.eval) and compared with the same operation on the operand values - a differential test against a Coq-defined '
         'semantics, labelled as such. Four further defect classes of num.py found this way (F9 x<int ignores the int, F10 symbolic ordering heuristics, F11 identity __eq__, '
         'F12 Exp.__mod__ early returns) are recorded as known findings, attributed at run time by counterfactuals; anything else is a VIOLATION.',
    note=COMMON_NOTE + 'CPython 3.12 (/root/.pyenv/versions/3.12.1) runs tm/num.py from /repo directly. Tet is excluded. Float tests in num.py for m >= 2^40 are unmodelled (none occurred).',
-   tech='Rocq/Coq proof for % (modular arithmetic) + differential test of the other operators against the extracted Coq integer semantics'),
+   tech='Rocq/Coq proofs for % and for integer-operand arithmetic (models tied to the library by value and by result-tree equality) + differential test of the Num-by-Num operators and comparisons against the extracted Coq integer semantics'),
 }
 
 def main():
